@@ -103,7 +103,7 @@ Definition read_from_field_d (m : mode) (r : rstd) (sc : scope) (is_opt : bool) 
                 Ok (f_err e, rd_set_src r (src_adv s (p - s_pos s) (skipn (N.to_nat (p - s_pos s)) (s_rest s))))
             | Ok (n, s) =>
                 let r := rd_set_src r s in
-                let! read_n := uadd m n 1 in
+                let read_n := N.min (n + 1) (two64 - 1) in      (* saturating_add(1) *)
                 (* #[cfg] descriptions.push(ScopeDescription::warning(format!(..))) inside the (ungated) `if` *)
                 let r := if n_ext <? read_n then push r L_WARNING_EXT else r in
                 let start := s_pos (r_src (rd_st r)) in
